@@ -21,6 +21,7 @@ def run(project, rep):
     schema.check_floors()
     rep.run(S.m2_update_args, schema, rep)
     rep.run(U.u_rules, schema, rep)
+    rep.run(U.u_r1b_loop_state_on_unknown_path, schema, rep)
     rep.run(U.u_r7_index_deletion, schema, rep)
     rep.run(U.u_r8_nullable_fields, schema, rep)
     from .. import rules_parser as P
